@@ -316,45 +316,29 @@ theorem readOnlyAt_ren (root : Entry) (p : Path) : (Entry.ren σ root).readOnlyA
 
 end
 
-section
-variable {σ : Nat → Nat} {r₁ r₂ : Registry} (h : RegRel σ r₁ r₂)
-include h
+/-- The answer of `InstantiatingModule()` given the loaded modules with the node's namespace. -/
+def instOf : List Mod → Option String
+  | [] => none
+  | m :: rest => if rest.all (·.name == m.name) then some m.name else none
 
-theorem namespaceAt_ren (f : Forest) (loc : Loc) :
-    namespaceAt r₂ (Forest.ren σ f) (lren σ loc) = namespaceAt r₁ f loc := by
-  unfold namespaceAt
-  simp only [lren, tree?_ren h.inj, h.byId]
-  cases f.tree? loc.1 with
-  | none => rfl
-  | some root =>
-    simp only [Option.map_some, stampAt_ren]
-    cases root.stampAt loc.2 with
-    | some n => rfl
-    | none =>
-      cases r₁.byId loc.1 with
-      | none => rfl
-      | some m =>
-        simp only [Option.map_some, h.owner]
-        cases r₁.owner m <;> rfl
+theorem instantiatingModuleAt_eq (reg : Registry) (f : Forest) (loc : Loc) :
+    instantiatingModuleAt reg f loc =
+      instOf (reg.distinctModules.filter fun m => (m.stmt.argOf? "namespace").getD "" == namespaceAt reg f loc) := by
+  unfold instantiatingModuleAt
+  simp only
+  generalize (reg.distinctModules.filter fun m => (m.stmt.argOf? "namespace").getD "" == namespaceAt reg f loc) = l
+  cases l <;> rfl
 
-/-- The answer of `InstantiatingModule()` depends on the loaded modules as a set only. -/
-theorem instMod_perm {l₁ l₂ : List Mod} (hp : l₁.Perm l₂) :
-    (match l₁ with
-      | [] => none
-      | m :: rest => if rest.all (·.name == m.name) then some m.name else none) =
-    (match l₂ with
-      | [] => (none : Option String)
-      | m :: rest => if rest.all (·.name == m.name) then some m.name else none) := by
-  have key : ∀ (l : List Mod), (match l with
-      | [] => (none : Option String)
-      | m :: rest => if rest.all (·.name == m.name) then some m.name else none) =
+/-- It depends on them as a set only. -/
+theorem instOf_perm {l₁ l₂ : List Mod} (hp : l₁.Perm l₂) : instOf l₁ = instOf l₂ := by
+  have key : ∀ (l : List Mod), instOf l =
       match l.head? with
       | none => none
       | some m => if l.all (·.name == m.name) then some m.name else none := by
     intro l
     cases l with
     | nil => rfl
-    | cons m rest => simp
+    | cons m rest => simp [instOf]
   rw [key, key]
   cases l₁ with
   | nil => rw [List.nil_perm.mp hp]
@@ -377,20 +361,42 @@ theorem instMod_perm {l₁ l₂ : List Mod} (hp : l₁.Perm l₂) :
           rw [hp.all_eq, hab]; exact hx
         rw [if_neg hall, if_neg hall₂]
 
+section
+variable {σ : Nat → Nat} {r₁ r₂ : Registry} (h : RegRel σ r₁ r₂)
+include h
+
+theorem namespaceAt_ren (f : Forest) (loc : Loc) :
+    namespaceAt r₂ (Forest.ren σ f) (lren σ loc) = namespaceAt r₁ f loc := by
+  unfold namespaceAt
+  simp only [lren, tree?_ren h.inj, h.byId]
+  cases f.tree? loc.1 with
+  | none => rfl
+  | some root =>
+    simp only [Option.map_some, stampAt_ren]
+    cases root.stampAt loc.2 with
+    | some n => rfl
+    | none =>
+      cases r₁.byId loc.1 with
+      | none => rfl
+      | some m =>
+        simp only [Option.map_some, h.owner]
+        cases r₁.owner m <;> rfl
+
 theorem instantiatingModuleAt_ren (f : Forest) (loc : Loc) :
     instantiatingModuleAt r₂ (Forest.ren σ f) (lren σ loc) = instantiatingModuleAt r₁ f loc := by
-  unfold instantiatingModuleAt
+  rw [instantiatingModuleAt_eq, instantiatingModuleAt_eq]
   simp only [namespaceAt_ren h]
   have hp : (r₂.distinctModules.filter fun m => (m.stmt.argOf? "namespace").getD "" == namespaceAt r₁ f loc).Perm
       ((r₁.distinctModules.filter fun m => (m.stmt.argOf? "namespace").getD "" == namespaceAt r₁ f loc).map (Mod.ren σ)) := by
     refine (h.distinctModules.filter _).trans ?_
     rw [List.filter_map]
     exact List.Perm.refl _
-  rw [instMod_perm hp]
+  rw [instOf_perm hp]
   cases r₁.distinctModules.filter fun m => (m.stmt.argOf? "namespace").getD "" == namespaceAt r₁ f loc with
   | nil => rfl
   | cons m rest =>
-    simp only [List.map_cons, Mod.ren_name, List.all_map, Function.comp]
+    simp only [instOf, List.map_cons, Mod.ren_name, List.all_map]
+    rfl
 
 end
 
